@@ -163,7 +163,7 @@ Proof.
   - destruct tz; [cbn; split; discriminate|].
     rewrite auth_loop_cons. pose proof (on_reply_spec o ev stacked conv Hs) as Hr.
     destruct (snd (on_reply o ev stacked conv)) as [c|q' tz' st' conv'].
-    + cbn [r_out r_read stop]. destruct (is_success ev); cbn [ends_in_success].
+    + cbn [r_out r_read stop ends_in_success]. destruct (is_success ev).
       * subst c. split; reflexivity.
       * split; [|discriminate]. intro E. exfalso. exact (ORet_neq _ Hr E).
     + destruct Hr as [Hc Hs']. cbn [r_out r_read]. rewrite ends_in_success_cons.
@@ -262,14 +262,21 @@ Proof.
     apply loop_read_prefix.
 Qed.
 
+Lemma served_stop : forall e script,
+  firstn (N.to_nat (served_count (stop e) script)) script = r_read (stop e).
+Proof.
+  intros e script. unfold served_count. cbn [stop r_reqs r_read length N.of_nat].
+  rewrite N.min_0_l. reflexivity.
+Qed.
+
 Lemma connected_served : forall o h script,
   firstn (N.to_nat (served_count (auth_connected o h script) script)) script =
   r_read (auth_connected o h script).
 Proof.
   intros o h script. unfold auth_connected.
-  destruct (h_service h); [|reflexivity].
-  destruct (h_account h); [|reflexivity].
-  destruct (o_first_pass o); [destruct (h_authtok h); [|reflexivity]|]; apply loop_served.
+  destruct (h_service h); [|apply served_stop].
+  destruct (h_account h); [|apply served_stop].
+  destruct (o_first_pass o); [destruct (h_authtok h); [|apply served_stop]|]; apply loop_served.
 Qed.
 
 (* ------------------------------------------------------------------ CryptPw *)
@@ -484,21 +491,71 @@ Proof.
 Qed.
 
 (* ------------------------------------------------------------------ acct_mgmt *)
+Definition service_ok (h : handler) : bool := match h_service h with HOk _ => true | HErr _ => false end.
+
 Lemma acct_success_iff : forall o h src ct, handler_sane h = true ->
   r_out (acct_mgmt o h src ct) = ORet PAM_SUCCESS <->
-  acct_legit h src ct (r_read (acct_mgmt o h src ct)) = true.
+  service_ok h = true /\ acct_legit h src ct (r_read (acct_mgmt o h src ct)) = true.
 Proof.
   intros o h src ct H. destruct (handler_sane_parts h H) as (H1 & H2 & _ & _).
-  unfold acct_mgmt, acct_legit, local_entry.
+  unfold acct_mgmt, acct_legit, local_entry, service_ok.
   destruct (h_service h) as [u|e].
   2:{ cbn [r_out r_read stop]. split.
       - intro E. exfalso. exact (ORet_neq _ (sane_err _ _ H1) E).
-      - destruct src as [script|users shadow]; [discriminate|].
-        destruct (h_account h) as [acct|e']; [|discriminate].
-        (* the service error comes first: the model stops before looking at the files *)
-        intro E. exfalso. revert E.
-        (* acct_legit for the fallback does not mention the service: this direction needs the
-           run to have reached the lookup, which it has not *)
-        admit. }
-  admit.
-Admitted.
+      - intros [E _]. discriminate. }
+  destruct (h_account h) as [acct|e].
+  2:{ cbn [r_out r_read stop]. split.
+      - intro E. exfalso. exact (ORet_neq _ (sane_err _ _ H2) E).
+      - intros [_ E]. destruct src; discriminate. }
+  destruct src as [script|users shadow].
+  - destruct script as [|ev rest]; cbn [r_out r_read].
+    + split; [discriminate | intros [_ E]; discriminate].
+    + destruct ev as [r sid| |[[|]|]|k| |]; cbn; try (split; [discriminate | intros [_ E]; discriminate]).
+      * split; [intros _; split; reflexivity | intros _; reflexivity].
+      * destruct (o_ignore_unknown o); split; try discriminate; intros [_ E]; discriminate.
+  - destruct (user_known acct (recs users)).
+    2:{ cbn [r_out stop]. split; [destruct (o_ignore_unknown o); discriminate | intros [_ E]; discriminate]. }
+    destruct (find_shadow acct (recs shadow)) as [ent|].
+    2:{ cbn [r_out stop]. split; [destruct (o_ignore_unknown o); discriminate | intros [_ E]; discriminate]. }
+    destruct (expired ct ent); cbn; split; try discriminate; try (intros [_ E]; discriminate).
+    + intros _. split; reflexivity.
+    + intros _. reflexivity.
+Qed.
+
+Lemma acct_served : forall o h src ct,
+  firstn (N.to_nat (served_count (acct_mgmt o h src ct) (script_of src))) (script_of src) =
+  r_read (acct_mgmt o h src ct).
+Proof.
+  intros o h src ct. unfold acct_mgmt.
+  destruct (h_service h) as [u|e]; [|apply served_stop].
+  destruct (h_account h) as [a|e]; [|apply served_stop].
+  destruct src as [script|users shadow]; cbn [script_of].
+  - destruct script as [|ev rest]; [reflexivity|].
+    unfold served_count. cbn [r_reqs r_read length]. rewrite N2Nat.inj_min, !Nat2N.id. reflexivity.
+  - destruct (user_known a (recs users)), (find_shadow a (recs shadow)) as [ent|];
+      try destruct (expired ct ent); apply served_stop.
+Qed.
+
+(* ------------------------------------------------------------------ the bridge *)
+Lemma outcome_eqb_eq : forall a b, outcome_eqb a b = true -> a = b.
+Proof.
+  intros [x|] [y|]; cbn; try discriminate; [|reflexivity].
+  intro H. apply N.eqb_eq in H. subst. reflexivity.
+Qed.
+
+Lemma agree_implies_pcheck : forall c, agree c = true -> pcheck c = true.
+Proof.
+  intros c H. unfold agree in H.
+  apply andb_true_iff in H as [H H4]. apply andb_true_iff in H as [H H3].
+  apply andb_true_iff in H as [H1 H2]. apply outcome_eqb_eq in H1. apply N.eqb_eq in H4.
+  unfold pcheck. destruct (handler_sane (c_h c)) eqn:Hs; [|reflexivity]. cbn [negb].
+  destruct (i_out c) as [[|p]|] eqn:Eo; try reflexivity.
+  unfold model_run in *. destruct (c_op c).
+  - (* sm_authenticate *)
+    unfold authenticate in *. destruct (c_src c) as [script|users shadow].
+    + cbn [script_of] in H4. rewrite <- H4, connected_served.
+      apply connected_success_iff; [exact Hs | exact H1].
+    + apply (fallback_success_only_when tree_fixed); [exact Hs | exact H1].
+  - (* acct_mgmt *)
+    rewrite <- H4, acct_served. apply (acct_success_iff _ _ _ _ Hs). exact H1.
+Qed.
